@@ -29,14 +29,23 @@ any number of accounts, candidates and names, any heights and amounts. Clause by
                                                           `ranking_is_permutation`, `ranking_sorted`,
                                                           `ranking_independent_of_map_order`, `bp_ranking_strict`
     (full strength since repair 1c75543b of VoteList.Less; the pre-repair tie is `less_tie_before_repair`)
+    what consensus consumes (GetRankers, getVoteResult(n)): `rankers_are_top`
 * voting-power rank: memory = reload, total = Σ ......... `vpr_memory_eq_reload`, `vpr_total_eq_sum`,
                                                           `vpr_power_eq_votes`
+    at node level (model `Aergo.Model.GovNode`: blocks that are connected, fail, are abandoned, reorganisations,
+    restarts; memory = rank *and* parameter table): `node_memory_eq_state_partial`, `failed_block_restores_memory`,
+    `reorg_restores_memory`, `node_genesis_clean`
+    guard: no block is connected on top of an abandoned own block before the memory was reloaded — the pinned
+    code reloads nothing when the node's own block is not connected (finding
+    C15-stale-own-block-leaves-memory-dirty): `stale_block_breaks_memory`; the two reorganisation defects this
+    check found were repaired (01aa461f), pre-repair witness `reorg_old_params_before_repair`
 * lock periods and minimum stake ......................... `stake_rule`, `stake_locked_iff`, `unstake_rule`,
                                                           `unstake_accepted`, `vote_rule`, `lock_restarts`,
-                                                          `refused_unchanged`
+                                                          `refused_unchanged`, `threshold_total`
+    against the history (independent specification): `when_eq_last_action`, `lock_period_by_history`
 * unstaking returns exactly the amount ................... `unstake_exact`, `unstake_never_insufficient`
-* names .................................................. `name_unique`, `name_create_rule`, `name_update_rule`,
-                                                          `name_others_unchanged`
+* names .................................................. `name_unique`, `name_unique_reachable`, `name_create_rule`,
+                                                          `name_update_rule`, `name_others_unchanged`
 * record codecs (support) ................................ `staking_codec`, `vote_codec`, `voteEx_codec`,
                                                           `nameMap_codec`, `votingPower_codec`, `voteList_codec`,
                                                           `bucket_codec`
@@ -47,6 +56,8 @@ Not carried by a theorem (see notes/C15.md): that the *persisted* parameter-vote
 -/
 import Aergo.Lemmas.GovCand
 import Aergo.Lemmas.GovCodec
+import Aergo.Lemmas.GovNode
+import Aergo.Lemmas.GovHist
 
 namespace Aergo.Props.C15
 open Aergo.Gov
@@ -61,14 +72,17 @@ structure GInv (s : St) : Prop where
   vpr : InvVpr s
   cand : InvCand s
 
-/-- A state with empty governance storage: nothing staked, no vote, no tally, an empty voting-power rank,
-nothing held by the staking account, distinct account ids. Balances, parameters and names are arbitrary. -/
+/-- A genesis state: nothing staked, no vote, an empty voting-power rank, nothing held by the staking account, distinct
+account ids; the tallies are those `chain.InitGenesisBPs` writes for a DPoS genesis — one entry per genesis block
+producer (a 39-byte peer id, each listed once) with amount 0 — or none at all. Balances, parameters and names are
+arbitrary. -/
 structure Genesis (s : St) : Prop where
   stakes : s.stakes = []
   total : s.total = 0
   sysBal : s.balOf sysAddr = 0
   votes : s.votes = []
-  tally : s.tally = []
+  tallyZero : ∀ e ∈ s.tally, e.2 = 0 ∧ e.1.1 = .bp ∧ e.1.2.length = 39
+  tallyNodup : s.tally.keys.Nodup
   vpr : s.vpr = Vpr.empty
   vprDisk : s.vprDisk = []
   nameOwner : s.names.get nameAddr = none
@@ -97,18 +111,30 @@ theorem idsDistinct_of_nodup {accts : AMap Bytes Bytes} (hn : (accts.map (·.2))
 
 /-- test: a genesis state with two funded accounts exists. -/
 example : Genesis { St.init 2 with accts := [([2, 1], [7]), ([3, 1], [9])], bal := [([2, 1], 5), ([3, 1], 6)] } :=
-  ⟨rfl, rfl, by decide, rfl, rfl, rfl, rfl, by decide, idsDistinct_of_nodup (by decide)⟩
+  ⟨rfl, rfl, by decide, rfl, by decide, by decide, rfl, rfl, by decide, idsDistinct_of_nodup (by decide)⟩
+
+/-- test: a DPoS genesis as `chain.InitGenesisBPs` leaves it — zero tallies for three genesis producers. -/
+example :
+    let bp (x : UInt8) : Bytes := [0, 0x25, 8, 2, 0x12, 0x21, 2] ++ List.replicate 32 x
+    Genesis { genesisWith 5 [bp 1, bp 2, bp 3] with accts := [([2, 1], [7])], bal := [([2, 1], 5)] } :=
+  ⟨rfl, rfl, by decide, rfl, by decide, by decide, rfl, rfl, by decide, idsDistinct_of_nodup (by decide)⟩
 
 theorem ginv_genesis {s : St} (h : Genesis s) : GInv s := by
   refine ⟨⟨?_, ?_⟩, ⟨?_, ?_⟩, ⟨⟨?_, ?_, ?_⟩, ?_⟩, ⟨?_, ?_, ?_, ?_, h.idsDistinct, ?_⟩,
-    ⟨by rw [h.tally]; intro e he; exact absurd he (by simp), by rw [h.votes]; intro e he; exact absurd he (by simp)⟩⟩
+    ⟨fun e he _ => (h.tallyZero e he).2.2, by rw [h.votes]; intro e he; exact absurd he (by simp)⟩⟩
   · rw [h.stakes]; exact List.nodup_nil
   · rw [h.total, h.stakes]; rfl
   · rw [h.sysBal, h.total]
   · unfold St.nameState; rw [h.nameOwner]; exact nameAddr_ne_sys
   · rw [h.votes]; exact List.nodup_nil
-  · rw [h.tally]; exact List.nodup_nil
-  · intro k; rw [h.tally, h.votes]; rfl
+  · exact h.tallyNodup
+  · intro k
+    rw [h.votes]
+    show tget s.tally k = 0
+    unfold tget
+    cases hg : s.tally.get k with
+    | none => rfl
+    | some x => exact (h.tallyZero (k, x) (AMap.mem_of_get hg)).1
   · intro i a v hv; rw [h.votes] at hv; exact absurd hv (by simp)
   · rw [h.vpr, h.vprDisk]; exact vprOk_empty
   · rw [h.vpr]; exact List.nodup_nil
@@ -152,7 +178,7 @@ example :
       .endBlock, .unstake a 86402 (10000 * aergo), .restart, .endBlock]
     Genesis s0 ∧ Admissible s0 ops ∧
     (ops.foldl (fun (acc : St × Bool) o => ((step acc.1 o).2, acc.2 && decide ((step acc.1 o).1 = .ok))) (s0, true)).2 = true := by
-  refine ⟨⟨rfl, rfl, by decide, rfl, rfl, rfl, rfl, by decide, idsDistinct_of_nodup (by decide)⟩, ?_, by decide⟩
+  refine ⟨⟨rfl, rfl, by decide, rfl, by decide, by decide, rfl, rfl, by decide, idsDistinct_of_nodup (by decide)⟩, ?_, by decide⟩
   intro o ho
   simp only [List.mem_cons, List.not_mem_nil, or_false] at ho
   rcases ho with rfl | rfl | rfl | rfl | rfl | rfl | rfl | rfl <;>
@@ -176,7 +202,7 @@ theorem transfer_to_system_breaks_balance :
     let s0 : St := { St.init 2 with accts := [([2, 1], [7])], bal := [([2, 1], 100)] }
     let s1 := (step s0 (.transfer [2, 1] sysAddr 7)).2
     Genesis s0 ∧ s1.balOf sysAddr = 7 ∧ s1.total = 0 ∧ ¬ InvSys s1 := by
-  refine ⟨⟨rfl, rfl, by decide, rfl, rfl, rfl, rfl, by decide, idsDistinct_of_nodup (by decide)⟩, by decide, by decide, ?_⟩
+  refine ⟨⟨rfl, rfl, by decide, rfl, by decide, by decide, rfl, rfl, by decide, idsDistinct_of_nodup (by decide)⟩, by decide, by decide, ?_⟩
   · intro h
     have := h.sys
     revert this
@@ -377,8 +403,9 @@ theorem unstake_accepted {s s' : St} {a : Bytes} {h amt : Nat} (hr : unstake s a
 
 /-- Voting (producer or parameter vote): refused without stake; a *re*-vote (a vote record for the issue
 exists) is refused until VotingDelay blocks have passed since the staking record was last written; otherwise
-it is executed (`panic` stands for the two Go panics the model keeps explicit: nil tally entry, division by
-zero in `threshold`). -/
+it is executed (`panic` stands for the Go panic the model keeps explicit: a nil tally entry in SubVote, which
+`tally_eq_sum_votes_partial` excludes in reachable states; the division by zero in `threshold` was repaired by
+f9db0000, see `threshold_total`). -/
 theorem vote_rule (s : St) (i : Issue) (a : Bytes) (h : Nat) (cands : List Bytes) :
     (s.stakedAmount a = 0 → castVote s i a h cands = (.mustStakeVote, s)) ∧
     (s.stakedAmount a ≠ 0 → (s.voteOf i a).isSome → h < s.stakedWhen a + votingDelay →
@@ -422,6 +449,137 @@ theorem refused_unchanged (s : St) (o : Op) (hr : (step s o).1 ≠ .ok) : (step 
   rcases step_result s o with h | h
   · exact absurd h hr
   · exact h
+
+/-! ### Clause 5 against the history (independent specification)
+
+The rule theorems above unfold the model's own checks (their content comes from the correspondence run). This one states
+the lock period against what a *history* says, without looking at the state: `traceOf` lists the submitted operations with
+the answers they got, `lastAct a` scans that list for `a`'s last successful stake, unstake or vote. -/
+
+/-- For every history from a state in which `a` has no staking record: the staking record's `When` is the height of `a`'s
+last successful stake, unstake or vote in the history (none of them: no record). -/
+theorem when_eq_last_action (s0 : St) (ops : List Op) (a : Bytes) (hfresh : s0.stakes.get a = none) :
+    (runOps s0 ops).whenOf a = lastAct a (traceOf s0 ops) := by
+  have := whenOf_runOps a ops s0
+  rw [this]
+  have h0 : s0.whenOf a = none := by unfold St.whenOf; rw [hfresh]; rfl
+  rw [h0]; rfl
+
+/-- Lock period, history form. After any history (from a state where `a` has no staking record): if `a`'s last successful
+stake, unstake or vote was at height `h0`, then every stake and every unstake of `a` at a height below `h0 + 86400` is
+refused (and the state is unchanged), and a stake at or above it is not refused for the lock period; if `a` never acted
+successfully, a stake is never refused for the lock period and an unstake is refused ("must stake before"). -/
+theorem lock_period_by_history (s0 : St) (ops : List Op) (a : Bytes) (hfresh : s0.stakes.get a = none) (h amt : Nat) :
+    match lastAct a (traceOf s0 ops) with
+    | some h0 =>
+      (h < h0 + stakingDelay →
+        (stake (runOps s0 ops) a h amt).1 ≠ .ok ∧ (stake (runOps s0 ops) a h amt).2 = runOps s0 ops ∧
+        (unstake (runOps s0 ops) a h amt).1 ≠ .ok ∧ (unstake (runOps s0 ops) a h amt).2 = runOps s0 ops) ∧
+      (h0 + stakingDelay ≤ h → (stake (runOps s0 ops) a h amt).1 ≠ .lessTime)
+    | none =>
+      (stake (runOps s0 ops) a h amt).1 ≠ .lessTime ∧ unstake (runOps s0 ops) a h amt = (.mustStakeUnstake, runOps s0 ops) := by
+  have hw := when_eq_last_action s0 ops a hfresh
+  generalize runOps s0 ops = s at hw
+  unfold St.whenOf at hw
+  cases hl : lastAct a (traceOf s0 ops) with
+  | none =>
+    rw [hl] at hw
+    have hg : s.stakes.get a = none := by
+      cases hget : s.stakes.get a with
+      | none => rfl
+      | some st => rw [hget] at hw; simp at hw
+    simp only
+    constructor
+    · rw [stake_rule]
+      have : s.stakeLocked a h = false := by unfold St.stakeLocked; rw [hg]
+      rw [this]
+      split
+      · simp
+      · simp only [Bool.false_eq_true, if_false]; split <;> simp
+    · have hz : s.stakedAmount a = 0 := by unfold St.stakedAmount; rw [hg]
+      have := (unstake_rule s a h amt).2 .mustStakeUnstake (by rw [(unstake_rule s a h amt).1, if_pos hz])
+      exact this
+  | some h0 =>
+    rw [hl] at hw
+    obtain ⟨st, hget, hwhen⟩ : ∃ st, s.stakes.get a = some st ∧ st.when = h0 := by
+      cases hget : s.stakes.get a with
+      | none => rw [hget] at hw; simp at hw
+      | some st => rw [hget] at hw; simp at hw; exact ⟨st, rfl, hw⟩
+    simp only
+    refine ⟨fun hlt => ?_, fun hge => ?_⟩
+    · have hlock : s.stakeLocked a h = true := (stake_locked_iff s a h).mpr ⟨st, hget, by rw [hwhen]; exact hlt⟩
+      have hs1 : (stake s a h amt).1 ≠ .ok := by
+        rw [stake_rule, hlock]
+        split
+        · simp
+        · simp
+      have hu : ∃ r, unstakeCheck s a h amt = some r ∧ r ≠ .ok := by
+        rw [(unstake_rule s a h amt).1]
+        by_cases h1 : s.stakedAmount a = 0
+        · exact ⟨_, by rw [if_pos h1], by simp⟩
+        · rw [if_neg h1]
+          by_cases h2 : s.stakedAmount a < amt
+          · exact ⟨_, by rw [if_pos h2], by simp⟩
+          · rw [if_neg h2]
+            have h3 : s.stakedWhen a + stakingDelay > h := by
+              unfold St.stakedWhen; rw [hget]; simp only; rw [hwhen]; exact hlt
+            exact ⟨_, by rw [if_pos h3], by simp⟩
+      obtain ⟨r, hr, hne⟩ := hu
+      have hun := (unstake_rule s a h amt).2 r hr
+      refine ⟨hs1, refused_unchanged s (.stake a h amt) hs1, ?_, ?_⟩
+      · rw [hun]; exact hne
+      · rw [hun]
+    · rw [stake_rule]
+      have hlock : s.stakeLocked a h = false := by
+        unfold St.stakeLocked; rw [hget]; simp only; rw [hwhen]
+        exact decide_eq_false (by omega)
+      rw [hlock]
+      split
+      · simp
+      · simp only [Bool.false_eq_true, if_false]; split <;> simp
+
+/-- test (non-vacuity): in the history [a stakes at 5, a votes at 7, b stakes at 9, a's stake at 100 is refused] the last
+successful action of `a` is at height 7 (the refused stake does not count, `b`'s stake does not count). -/
+example :
+    let a : Bytes := [2, 1]
+    let b : Bytes := [3, 1]
+    let s0 : St := { St.init 2 with accts := [(a, [7]), (b, [9])], bal := [(a, 50000 * aergo), (b, 50000 * aergo)] }
+    let ops : List Op := [.stake a 5 (20000 * aergo), .voteBP a 7 [List.replicate 39 1], .stake b 9 (10000 * aergo), .stake a 100 aergo]
+    lastAct a (traceOf s0 ops) = some 7 ∧ (traceOf s0 ops).map (·.2) = [.ok, .ok, .ok, .lessTime] := by
+  decide +kernel
+
+/-! ### Clause 3, what consensus consumes of the ranking -/
+
+/-- `getVoteResult(…, n)` returns the first `n` entries of the persisted ranking and `GetRankers` the candidates of its
+first `GetBpCount()` entries. In every reachable state this is the *top* of the tally order: every entry that is kept
+ranks strictly above every entry that is cut off (no tie can straddle the cut), whatever order the map iteration
+delivered the tallies in. -/
+theorem rankers_are_top {s : St} (h : GInv s) (n : Nat) :
+    voteResultTop s.tally .bp n = (rankOf s.tally .bp).take n ∧
+    (voteResultTop s.tally .bp n).length = min n (rankOf s.tally .bp).length ∧
+    (∀ x ∈ voteResultTop s.tally .bp n, ∀ y ∈ (rankOf s.tally .bp).drop n, less y x = true) ∧
+    rankers s = ((rankOf s.tally .bp).take s.bpCount).map (·.1) ∧
+    (∀ l : List Entry, l.Perm (entriesOf s.tally .bp) → (rankSort l).take n = voteResultTop s.tally .bp n) := by
+  refine ⟨rfl, by simp [voteResultTop, List.length_take], ?_, rfl, fun l hl => ?_⟩
+  · exact take_append_drop_pairwise (bp_ranking_strict h).1 n
+  · unfold voteResultTop; rw [(bp_ranking_strict h).2 l hl]
+
+/-- `VoteResult.threshold` never fails (repair f9db0000: before it a top tally below 100 aer divided by zero), and says
+"reached" exactly when the top tally has a hundredth and the staking total is at most 150 of them. -/
+theorem threshold_total (total power : Nat) :
+    ∃ b, threshold total power = some b ∧ (b = true ↔ 100 ≤ power ∧ total / (power / 100) ≤ 150) := by
+  unfold threshold
+  by_cases h0 : power = 0
+  · exact ⟨false, by rw [if_pos h0], by simp [h0]⟩
+  · rw [if_neg h0]
+    by_cases h1 : power / 100 = 0
+    · refine ⟨false, by rw [if_pos h1], ?_⟩
+      have : power < 100 := by omega
+      simp; omega
+    · rw [if_neg h1]
+      refine ⟨_, rfl, ?_⟩
+      have : 100 ≤ power := by omega
+      simp [this]
 
 /-! ### Clause 6: unstaking returns exactly the requested amount -/
 
@@ -507,6 +665,16 @@ theorem name_unique_step {s : St} (o : Op) (hn : InvNames s) : InvNames (step s 
     | endBlock => simp only [step, Prod.mk.injEq, true_and] at hr; subst hr; exact ⟨hn.nodup⟩
     | restart => simp only [step, Prod.mk.injEq, true_and] at hr; subst hr; exact ⟨hn.nodup⟩
 
+/-- … hence in every state reachable from one with at most one record per name (the empty name table of a genesis
+state in particular), by any operation sequence. -/
+theorem name_unique_reachable : ∀ (ops : List Op) (s : St), InvNames s → InvNames (runOps s ops)
+  | [], _, h => h
+  | o :: os, s, h => name_unique_reachable os _ (name_unique_step o h)
+
+/-- test: the name table of `St.init` is empty, so every state reachable from it binds a name at most once. -/
+example (fv : Nat) (ops : List Op) : InvNames (runOps (St.init fv) ops) :=
+  name_unique_reachable ops _ ⟨List.nodup_nil⟩
+
 /-- A name is created only when it is free and at least the name price is paid; the sender becomes owner and
 destination, and the amount leaves the sender's balance (it goes to `aergo.name`, or to the contract owner
 once one is set — nothing moves when the sender *is* that owner). -/
@@ -567,6 +735,143 @@ theorem name_others_unchanged (s : St) (o : Op) (m : Bytes)
       exact AMap.get_set_ne _ _ (Ne.symm hm)
     | endBlock => simp only [step, Prod.mk.injEq, true_and] at hr; subst hr; rfl
     | restart => simp only [step, Prod.mk.injEq, true_and] at hr; subst hr; rfl
+
+/-! ### Clause 4 at node level: memory against the state of the best block, through failed, abandoned and reorganised blocks
+
+`Aergo.Model.GovNode`: a node = the storage of its best block + the process-wide memory (rank, parameter table), and the
+snapshots of the best block's ancestors. Events: a block produced by the node and connected (`own`), produced and never
+connected (`stale`), received and connected (`net`), received and failing after its transactions ran (`netFail`), a
+reorganisation to a side branch that succeeds or fails at some block (`reorg`), a process restart. -/
+
+private theorem ginv_of_all {s : St} (h : AllInv s) : GInv s := ⟨h.total, h.sys, h.votes, h.vpr, h.cand⟩
+private theorem all_of_ginv {s : St} (h : GInv s) : AllInv s := ⟨h.total, h.sys, h.votes, h.vpr, h.cand⟩
+
+/-- "Memory = state" for one node state: the governance invariant (in particular the live rank is the one `loadVpr`
+rebuilds from the persisted buckets), nothing pending in the parameter table, and every current parameter value is the
+persisted one (`loadParams`: the stored value, else the default). -/
+structure MemoryIsState (s : St) : Prop where
+  ginv : GInv s
+  rank : VprEq (loadVpr s.vprDisk) s.vpr
+  noPending : s.nextParams = []
+  params : ∀ i, s.param i = diskParam s i
+
+private theorem memoryIsState_of_clean {s : St} (h : Clean s) : MemoryIsState s :=
+  ⟨ginv_of_all h.inv, vprOk_reload h.inv.vpr.ok, h.par.none, h.par.cur⟩
+
+/-- A node whose best block is a genesis state (default parameters, nothing persisted or pending) starts clean. -/
+theorem node_genesis_clean {s : St} (h : Genesis s) (hp : s.params = []) (hn : s.nextParams = []) (hd : s.paramsDisk = []) :
+    NClean s { cur := s, hist := [] } := by
+  refine ⟨⟨all_of_ginv (ginv_genesis h), hn, fun i => ?_⟩, rfl, fun p hp => absurd hp (by simp)⟩
+  unfold St.param diskParam; rw [hp, hd]; rfl
+
+/-- **The clause at node level.** Full statement: after every history of block events the in-memory rank equals the one
+rebuilt from the state of the best block (and the parameter table equals the persisted one). It is false on the pinned
+code (`stale_block_breaks_memory`, known finding C15-stale-own-block-leaves-memory-dirty). Proved, for every history of
+any length with admissible transactions: as long as no block is connected on top of an abandoned own block before the
+memory was reloaded (`Node.runTracked` ≠ none: after a `stale` event the next `own`/`net` must be preceded by a failed
+block, a reorganisation or a restart), then at every boundary where no abandoned block is outstanding (flag false) memory
+= state; and while one is outstanding (flag true) the storage is still sound: reloading the memory from it gives a state
+that satisfies the whole invariant, and the current parameter values are still the persisted ones. A failed block, a
+reorganisation (successful or failed at any block) and a restart each re-establish memory = state, whatever the memory
+was before. -/
+theorem node_memory_eq_state_partial (s0 : St) (n : Node) (evs : List Ev) (r : Node × Bool) (hn : NClean s0 n)
+    (hok : ∀ e ∈ evs, e.ok s0) (hr : Node.runTracked n false evs = some r) :
+    r.1 = n.run evs ∧
+    (r.2 = false → MemoryIsState r.1.cur) ∧
+    (r.2 = true → MemoryIsState (restart r.1.cur) ∧ ∀ i, r.1.cur.param i = diskParam r.1.cur i) := by
+  have hi := runTracked_inv s0 evs n false r hok hn hr
+  refine ⟨runTracked_run evs n false r hr, fun h2 => ?_, fun h2 => ?_⟩
+  · rw [h2] at hi; exact memoryIsState_of_clean hi.1
+  · rw [h2] at hi
+    exact ⟨memoryIsState_of_clean (clean_restart_of_dirty hi.1), hi.1.cur⟩
+
+/-- A block that fails after any of its transactions ran (Status.Update, rollback branch) restores memory = state, from a
+clean memory and from one an abandoned block left dirty; the storage is untouched. No guard on the transactions. -/
+theorem failed_block_restores_memory (s0 : St) (n : Node) (txs : List Op) (h : NDirty s0 n) :
+    MemoryIsState (n.step (.netFail txs)).cur ∧
+    (n.step (.netFail txs)).cur.vprDisk = n.cur.vprDisk ∧ (n.step (.netFail txs)).cur.stakes = n.cur.stakes ∧
+    (n.step (.netFail txs)).cur.votes = n.cur.votes ∧ (n.step (.netFail txs)).cur.tally = n.cur.tally ∧
+    (n.step (.netFail txs)).cur.paramsDisk = n.cur.paramsDisk :=
+  ⟨memoryIsState_of_clean (nclean_netFail s0 txs h).1, rfl, rfl, rfl, rfl, rfl⟩
+
+/-- A reorganisation to a branch root in the history restores memory = state whether it succeeds or fails at any block
+(since repair 01aa461f: rank *and* parameters are reloaded at the branch root, and from the old best block on failure). -/
+theorem reorg_restores_memory (s0 : St) (n : Node) (k : Nat) (blocks : List (List Op)) (failAt : Option Nat)
+    (h : NDirty s0 n) (hk : k < n.hist.length) (hok : ∀ b ∈ blocks, ∀ o ∈ b, TxOk s0 o) :
+    MemoryIsState (n.step (.reorg k blocks failAt)).cur :=
+  memoryIsState_of_clean (nclean_reorg s0 h hk hok).1
+
+/-- test (non-vacuity of `node_memory_eq_state_partial`): from a DPoS genesis, blocks that connect, a block that fails
+after a stake and two votes ran, an abandoned own block followed by a failed block, a reorganisation two blocks deep
+whose second block fails, a successful one, a restart: the guard holds and no abandoned block is outstanding at the end. -/
+example :
+    let a : Bytes := [2, 1]
+    let b : Bytes := [3, 1]
+    let c (x : UInt8) : Bytes := [0, 0x25, 8, 2, 0x12, 0x21, 2] ++ List.replicate 32 x
+    let s0 : St := { genesisWith 5 [c 1, c 2] with accts := [(a, [7]), (b, [9])], bal := [(a, 90000 * aergo), (b, 90000 * aergo)] }
+    let three : Bytes := [51] ++ List.replicate 18 48
+    let evs : List Ev := [
+      .own [.stake a 1 (40000 * aergo), .voteBP a 1 [c 1]],
+      .net [.stake b 2 (10000 * aergo), .voteDAO a 2 "NAMEPRICE" [three]],
+      .netFail [.voteBP b 3 [c 2, c 1], .voteDAO b 3 "BPCOUNT" [[53]]],
+      .stale [.voteBP b 3 [c 2]],
+      .netFail [],
+      .reorg 1 [[.stake b 2 (20000 * aergo)], [.voteBP b 3 [c 1]], []] (some 1),
+      .reorg 0 [[.voteBP b 3 [c 1]], []] none,
+      .restart, .own []]
+    Genesis s0 ∧ (∀ e ∈ evs, e.ok s0) ∧
+    (Node.runTracked { cur := s0, hist := [] } false evs).map (·.2) = some false := by
+  exact ⟨⟨rfl, rfl, by decide, rfl, by decide, by decide, rfl, rfl, by decide, idsDistinct_of_nodup (by decide)⟩,
+    evs_ok_of_b (by decide +kernel), by decide +kernel⟩
+
+/-- Negation of the unguarded clause, concrete witness (known finding C15-stale-own-block-leaves-memory-dirty; harness
+sessions `node:stale-own-block…` show the same on the real chain service and block factory). `a` stakes and votes in a
+connected block. The block factory then gathers [b stakes, b votes, a votes NAMEPRICE = 3 aergo] and the block is never
+connected: the rank in memory gives `b` the power 10000 aergo, the rank rebuilt from the state of the best block does not
+know `b`. The next (empty) block that is connected activates the pending value: the name price in memory is 3 aergo, the
+state says 1 aergo (the default). -/
+theorem stale_block_breaks_memory :
+    let a : Bytes := [2, 1]
+    let b : Bytes := [3, 1]
+    let c1 : Bytes := List.replicate 39 1
+    let s0 : St := { St.init 2 with accts := [(a, [7]), (b, [9])], bal := [(a, 50000 * aergo), (b, 50000 * aergo)] }
+    let three : Bytes := [51] ++ List.replicate 18 48
+    let n1 := Node.step { cur := s0, hist := [] } (.own [.stake a 1 (40000 * aergo), .voteBP a 1 [c1]])
+    let n2 := n1.step (.stale [.stake b 2 (10000 * aergo), .voteBP b 2 [c1], .voteDAO a 2 "NAMEPRICE" [three]])
+    let n3 := n2.step (.own [])
+    Genesis s0 ∧ NClean s0 n1 ∧
+    powerOf n2.cur.vpr [9] = 10000 * aergo ∧ powerOf (loadVpr n2.cur.vprDisk) [9] = 0 ∧
+    ¬ VprEq (loadVpr n2.cur.vprDisk) n2.cur.vpr ∧
+    n3.cur.param .namePrice = 3 * aergo ∧ diskParam n3.cur .namePrice = aergo ∧ ¬ MemoryIsState n3.cur := by
+  intro a b c1 s0 three n1 n2 n3
+  have hg : Genesis s0 := ⟨rfl, rfl, by decide, rfl, by decide, by decide, rfl, rfl, by decide, idsDistinct_of_nodup (by decide)⟩
+  have h2 : powerOf n2.cur.vpr [9] = 10000 * aergo ∧ powerOf (loadVpr n2.cur.vprDisk) [9] = 0 := by decide +kernel
+  have h3 : n3.cur.param .namePrice = 3 * aergo ∧ diskParam n3.cur .namePrice = aergo := by decide +kernel
+  refine ⟨hg, ?_, h2.1, h2.2, ?_, h3.1, h3.2, ?_⟩
+  · exact nclean_connect s0 _ (node_genesis_clean hg rfl rfl rfl) (txsOk_of_b (by decide +kernel))
+  · intro he
+    have := he.powers [9]
+    have e1 : powerOf (loadVpr n2.cur.vprDisk) [9] = powerOf n2.cur.vpr [9] := by unfold powerOf; rw [this]
+    rw [h2.1, h2.2] at e1
+    revert e1; decide
+  · intro hm
+    have := hm.params .namePrice
+    rw [h3.1, h3.2] at this
+    revert this; decide
+
+/-- Before repair 01aa461f (found by this check): the rollback branch of Status.Update kept the *current* parameter values,
+so the blocks of the new branch were executed under the old tip's parameters. Witness on the model's `updateElse` (which
+is that branch): the old branch voted the name price to 3 aergo; rolled back to the genesis block the memory still says
+3 aergo while the state there says 1 aergo. `reloadParams` (what reorganizer.rollback() calls now) makes them equal. -/
+theorem reorg_old_params_before_repair :
+    let a : Bytes := [2, 1]
+    let s0 : St := { St.init 2 with accts := [(a, [7])], bal := [(a, 50000 * aergo)] }
+    let three : Bytes := [51] ++ List.replicate 18 48
+    let n2 := (Node.step { cur := s0, hist := [] } (.own [.stake a 1 (40000 * aergo), .voteDAO a 1 "NAMEPRICE" [three]])).step (.own [])
+    let rolledBackOld := updateElse s0 n2.cur
+    rolledBackOld.param .namePrice = 3 * aergo ∧ diskParam rolledBackOld .namePrice = aergo ∧
+    (reloadParams rolledBackOld).param .namePrice = aergo := by
+  decide +kernel
 
 /-! ### Record codecs (support for the structured state of the model) -/
 
